@@ -30,6 +30,7 @@ type StepObs struct {
 	Sender  string         `json:"sender,omitempty"`  // the externally owned account
 	Created string         `json:"created,omitempty"` // create: the new contract address
 	Err     string         `json:"err,omitempty"`     // diagnostic only (never compared)
+	Halt    string         `json:"halt,omitempty"`    // the step (or the block boundary after it) PANICKED outside any recovery: a chain halt
 }
 
 type EnvInfo struct {
@@ -38,6 +39,7 @@ type EnvInfo struct {
 	Topics   map[string]string `json:"topics"`
 	EOAs     []string          `json:"eoas"`
 	Proxies  []string          `json:"proxies"`
+	Batches  []string          `json:"batches"`
 	Emitter  string            `json:"emitter"`
 	Bonded   string            `json:"bonded"`
 	NotBond  string            `json:"notbonded"`
@@ -117,6 +119,21 @@ func (e *Env) build(n *Node) (common.Address, []byte) {
 		to, data := e.build(n.Inner)
 		d := append([]byte{byte(n.Flags)}, to.Bytes()...)
 		return e.proxies[n.P], append(d, data...)
+	case "batch":
+		if len(n.Items) > 255 {
+			panic("batch too long")
+		}
+		d := []byte{byte(len(n.Items))}
+		for _, it := range n.Items {
+			to, data := e.build(it.Inner)
+			if len(data) > 0x7fff {
+				panic("batch payload too long")
+			}
+			d = append(append(d, byte(it.Flags)), to.Bytes()...)
+			d = append(d, byte(len(data)>>8), byte(len(data)))
+			d = append(d, data...)
+		}
+		return e.batches[n.P], d
 	}
 	panic("unknown node " + n.K)
 }
@@ -135,6 +152,9 @@ func collectVals(n *Node, out map[string]bool) {
 		}
 	}
 	collectVals(n.Inner, out)
+	for _, it := range n.Items {
+		collectVals(it.Inner, out)
+	}
 }
 
 func (e *Env) resolveVal(hexStr string) int {
@@ -180,6 +200,9 @@ func (e *Env) info() EnvInfo {
 	for _, p := range e.proxies {
 		inf.Proxies = append(inf.Proxies, hlib.Hex(p.Bytes()))
 	}
+	for _, p := range e.batches {
+		inf.Batches = append(inf.Batches, hlib.Hex(p.Bytes()))
+	}
 	for _, v := range e.valOper {
 		inf.Vals = append(inf.Vals, hlib.Hex([]byte(v.String())))
 	}
@@ -189,7 +212,7 @@ func (e *Env) info() EnvInfo {
 func runSpec(s Spec) Result {
 	e := NewEnv()
 	res := Result{Spec: s, Env: e.info()}
-	for _, st := range s.Steps {
+	for i, st := range s.Steps {
 		o := StepObs{Logs: []HLog{}}
 		// addresses whose storage is observed must be known before the pre-snapshot
 		var created common.Address
@@ -205,69 +228,89 @@ func runSpec(s Spec) Result {
 			}
 		}
 		o.Pre = e.Snapshot(st.T == "tx" || st.T == "create")
-		switch st.T {
-		case "tx", "create":
-			from := e.eoas[st.From]
-			o.Sender = hlib.Hex(from.addr.Bytes())
-			vs := map[string]bool{}
-			collectVals(st.Call, vs)
-			o.VRes = map[string]int{}
-			for v := range vs {
-				o.VRes[v] = e.resolveVal(v)
-			}
-			to, data := e.build(st.Call)
-			var out TxOut
-			if st.T == "create" {
-				o.Created = hlib.Hex(created.Bytes())
-				o.To = o.Created
-				out = e.SendEth(from, nil, ctorCallerInit(to.Bytes(), data), 3_000_000)
-			} else {
-				o.To = hlib.Hex(to.Bytes())
-				out = e.SendEth(from, &to, data, 3_000_000)
-			}
-			o.Class = out.Class
-			o.Logs = toHLogs(out)
-			if out.Class != clsOK {
-				o.Err = out.VmErr
-				if len(out.Log) > 0 && out.Class >= clsTxErr {
-					o.Err = out.Log
-					if len(o.Err) > 200 {
-						o.Err = o.Err[:200]
+		// DeliverTx recovers panics of a transaction itself; anything else that panics here (EndBlock / BeginBlock of
+		// the blocks an environment step contains, the crisis invariants they assert) would halt the chain
+		halted, what := hlib.Catch(func() {
+			switch st.T {
+			case "tx", "create":
+				from := e.eoas[st.From]
+				o.Sender = hlib.Hex(from.addr.Bytes())
+				vs := map[string]bool{}
+				collectVals(st.Call, vs)
+				o.VRes = map[string]int{}
+				for v := range vs {
+					o.VRes[v] = e.resolveVal(v)
+				}
+				to, data := e.build(st.Call)
+				var out TxOut
+				if st.T == "create" {
+					o.Created = hlib.Hex(created.Bytes())
+					o.To = o.Created
+					out = e.SendEth(from, nil, ctorCallerInit(to.Bytes(), data), 3_000_000)
+				} else {
+					o.To = hlib.Hex(to.Bytes())
+					out = e.SendEth(from, &to, data, 3_000_000)
+				}
+				o.Class = out.Class
+				o.Logs = toHLogs(out)
+				if out.Class != clsOK {
+					o.Err = out.VmErr
+					if len(out.Log) > 0 && out.Class >= clsTxErr {
+						o.Err = out.Log
+						if len(o.Err) > 200 {
+							o.Err = o.Err[:200]
+						}
 					}
 				}
+			case "fund":
+				to := created
+				if st.Addr != "created" {
+					to = common.BytesToAddress(hlib.UnHex(st.Addr))
+				}
+				e.Fund(to, bigOf(st.Amt))
+			case "reward":
+				e.Reward(st.Val, bigOf(st.Amt))
+			case "advance":
+				e.NextBlock(time.Duration(st.Secs) * time.Second)
+				e.NextBlock(5 * time.Second)
+			case "block":
+				e.NextBlock(5 * time.Second)
+			case "slash":
+				ctx := e.Ctx()
+				v, _ := e.app.StakingKeeper.GetValidator(ctx, e.valOper[st.Val])
+				h := ctx.BlockHeight()
+				if st.Inf != 0 {
+					h = st.Inf
+				}
+				e.app.StakingKeeper.Slash(ctx, e.valCons[st.Val], h, v.ConsensusPower(sdk.DefaultPowerReduction),
+					sdk.NewDecWithPrec(bigOf(st.Frac).Int64(), 2))
+			default:
+				panic(fmt.Sprintf("unknown step %q", st.T))
 			}
-		case "fund":
-			to := created
-			if st.Addr != "created" {
-				to = common.BytesToAddress(hlib.UnHex(st.Addr))
+		})
+		if !halted {
+			o.Post = e.Snapshot(false)
+			if st.NB {
+				halted, what = hlib.Catch(func() { e.NextBlock(5 * time.Second) })
 			}
-			e.Fund(to, bigOf(st.Amt))
-		case "reward":
-			e.Reward(st.Val, bigOf(st.Amt))
-		case "advance":
-			e.NextBlock(time.Duration(st.Secs) * time.Second)
-			e.NextBlock(5 * time.Second)
-		case "block":
-			e.NextBlock(5 * time.Second)
-		case "slash":
-			ctx := e.Ctx()
-			v, _ := e.app.StakingKeeper.GetValidator(ctx, e.valOper[st.Val])
-			h := ctx.BlockHeight()
-			if st.Inf != 0 {
-				h = st.Inf
-			}
-			e.app.StakingKeeper.Slash(ctx, e.valCons[st.Val], h, v.ConsensusPower(sdk.DefaultPowerReduction),
-				sdk.NewDecWithPrec(bigOf(st.Frac).Int64(), 2))
-		default:
-			panic(fmt.Sprintf("unknown step %q", st.T))
 		}
-		o.Post = e.Snapshot(false)
+		if halted {
+			o.Halt = "panic: " + what
+			if o.Post.Supply == "" {
+				o.Post = o.Pre
+			}
+			res.Obs = append(res.Obs, o)
+			res.Spec.Steps = res.Spec.Steps[:i+1]
+			res.Final = o.Post
+			return res
+		}
 		res.Obs = append(res.Obs, o)
-		if st.NB {
-			e.NextBlock(5 * time.Second)
-		}
 	}
-	e.NextBlock(5 * time.Second)
+	if halted, what := hlib.Catch(func() { e.NextBlock(5 * time.Second) }); halted && len(res.Obs) > 0 {
+		res.Obs[len(res.Obs)-1].Halt = "panic: " + what
+		res.Final = res.Obs[len(res.Obs)-1].Post
+		return res
+	}
 	res.Final = e.Snapshot(false)
 	return res
 }
